@@ -3,6 +3,7 @@ package main
 // C16: promql/series against a fake Prometheus backed by the real PromQL engine over a database whose content is known.
 
 import (
+	"slices"
 	"regexp"
 	"context"
 	"encoding/json"
@@ -205,6 +206,11 @@ func c16Eval(r *hx.Run, cs c16Case) {
 					o = append(o, fmt.Sprintf("%s|%s|%s", p.Summary, p.Severity, m))
 				}
 				sort.Strings(o)
+				if strings.Contains(cs.Expr, "cluster=") {
+					// dropping a matcher that selects nothing away can make two selectors of the query the same text, and
+					// pint reports once per distinct selector: the rewritten query is compared as a set of problems
+					o = slices.Compact(o)
+				}
 				return o
 			}
 			p2 := checks.NewSeriesCheck(fg).Check(ctx, es2[0], es2)
